@@ -29,7 +29,7 @@ ASSUMPTIONS = [
     "the independent cost model is the definition (validated against the unchanged tree)",
     "extract_contractions gives the node each recorded call belongs to (it is the programme that is executed)",
 ]
-REQUIRED_MONITORS = ["copychain_trees", "totals_vs_model", "nodes_vs_model", "peak_vs_model", "array_size_observed", "flops_observed", "peak_observed"]
+REQUIRED_MONITORS = ["annealed_trees", "copychain_trees", "totals_vs_model", "nodes_vs_model", "peak_vs_model", "array_size_observed", "flops_observed", "peak_observed"]
 SHARD_TIMEOUT = {"quick": 400, "thorough": 3600}
 
 
@@ -51,6 +51,13 @@ def prod(xs):
 def build(case):
     net = gen.Net.from_json(case["net"])
     tree = ct.make_tree(net, case["ssa"])
+    if case.get("anneal"):
+        # "every tree" includes trees produced by annealing (nodes installed with pre-computed
+        # legs / cost / size); nothing is queried between the anneal and the removals
+        import random
+
+        random.seed(case["case_seed"])
+        tree.simulated_anneal_(tsteps=2, numiter=3, tstart=10.0, seed=case["anneal"])
     for ix, proj in case["removed"]:
         tree.remove_ind_(ix, project=proj)
     return net, tree
@@ -78,6 +85,8 @@ def execute(rep, case):
                 return (res[0], f"tree #{k} of a non-inplace chain (sliced {list(t.sliced_inds)}): {res[1]}")
         return None
     net, tree = build(case)
+    if case.get("anneal"):
+        rep.mon("annealed_trees")
     return execute_tree(rep, case, net, tree)
 
 
@@ -197,6 +206,7 @@ def gen_case(rng, cs, tier):
         "net": net.to_json(), "ssa": ssa, "removed": removed, "order": rng.choice(ct.ORDERS),
         "prefer_einsum": rng.random() < 0.3, "case_seed": cs, "cap": budget(tier, 30000, 200000),
         "mode": "copychain" if rng.random() < 0.25 else "inplace",
+        "anneal": rng.randrange(1, 10**6) if rng.random() < 0.2 else 0,
     }
 
 
